@@ -1,6 +1,8 @@
 // Command c12 checks property C12 of openGemini ("a query shipped to the storage nodes is
-// the query that was planned"), part (a) of the design: in-process round trips of the
-// real printers/parsers and of the real shipping codecs.
+// the query that was planned"). Part (a) of the design: in-process round trips of the
+// real printers/parsers and of the real shipping codecs. Part (b), files cvs_*.go and
+// gen_schema.go: the black-box phase "cluster-vs-single" (one ts-server against a real
+// 3-meta/3-store/1-sql cluster on the same data, answers must be equal), run beside (a).
 //
 //	text --yacc parser / ParseExpr--> e --String()--> text' --ParseExpr--> e'      e == e' ?
 //	ProcessorOptions / RemoteQuery / QuerySchema / plan / Chunk --Marshal--> bytes --Unmarshal--> equal ?
@@ -68,7 +70,7 @@ func main() {
 		"(6) chunks are compared through the exported Chunk/Column accessors row by row. " +
 		"A failed round trip is reported under '<site>:<reason>' where the reason is verified constructively: the same tree does round-trip once exactly that " +
 		"(parentheses around weaker-binding operands / a fraction on integral numbers / no CR,NUL in strings / no fill() or alias in shipped sub-queries) is repaired, and the tree has what the repair addresses; " +
-		"one violation per necessary repair. Statements and sources (parts stmt/source/join) use a plain expression profile so that their clause structure is the subject; expressions are attacked in parts cond/arith/opts/plan")
+		"one violation per necessary repair. PHASE cluster-vs-single: a case is a generated statement (plain selection / aggregates count,sum,mean,min,max,first,last,spread,median / selector with auxiliary columns / string functions / several sources / sub-query / distinct; WHERE and field expressions from the same expression generator in schema mode; GROUP BY tags, time(d[,offset]) with every fill variant, ORDER BY time DESC, LIMIT/OFFSET, bound parameters, inner_chunk_size on plain selections) sent over HTTP to a single-node ts-server and to the ts-sql of a 3-store cluster holding the same generated dataset (3 measurements, 26-49 series, typed fields with nulls, two shard groups, layouts memtable / files / files+memtable); it is non-trivial when both systems answered, the canonical answers (series by name+tags, rows of equal time by text, mean within 1 ulp, time of a tied bare min/max masked) were judged, the answer has rows and the measurement's rows live on >= 2 stores (key = dataset:index:text). A difference must show on the first run and on two re-runs with nothing else in flight; signature cluster-vs-single|<kind>|where:<operator classes>|agg:<calls>|group:<..>|fill|order|limit|fields:<classes>|diff:<kind of difference>. Statements and sources (parts stmt/source/join) use a plain expression profile so that their clause structure is the subject; expressions are attacked in parts cond/arith/opts/plan")
 	c.Assume("the store side parses shipped text with influxql.ParseExpr / ParseSource / ParseSortFields / hybridqp.ParseFields and decodes options, plans and chunks with the Unmarshal functions exercised here (read from processor_codec.go, logic_plan_codec.go, rpc_message.go)")
 	c.Assume("the sql node parses queries with the yacc parser exactly as httpd.Handler.getSqlQuery does, and the planner's condition is influxql.ConditionExpr(stmt.Condition) / fields are influxql.Reduce(field) (query/compile.go)")
 	c.Assume("texts rejected by a parser are outside the property's quantifier and only counted")
@@ -81,6 +83,12 @@ func main() {
 
 	wd := time.Duration(c.Pick(12, 45)) * time.Minute
 	var wg sync.WaitGroup
+	// the black-box phase (cluster vs single node) runs beside the in-process workers
+	wg.Add(1)
+	go func() {
+		defer wg.Done()
+		cvsPhase(c)
+	}()
 	for w := 0; w < nWorkers; w++ {
 		wg.Add(1)
 		go func(w int) {
@@ -251,6 +259,9 @@ func replay(c *vf.Ctx) {
 			return
 		}
 		r.runText(tc, map[string]bool{})
+	case "cluster-vs-single":
+		cvsReplay(c, w.Witness)
+		r.known = int(cvsKnownHits)
 	case "opts", "plan", "chunk":
 		var oc objCase
 		if err := json.Unmarshal(w.Witness, &oc); err != nil {
